@@ -93,6 +93,23 @@ func ruleIgnoreUnexportedFirst(rule string) RuleFn {
 				}
 			}
 		})
+		// the scan for the embed looks at every field and reads the tag of the dig.In embed itself
+		for _, g := range ig {
+			isIn := an.EdgesWhere(fn, func(ft an.Fact) bool {
+				return strings.HasSuffix(ft.S, ".Type == *g:_inType)") && !strings.HasPrefix(ft.S, "!")
+			})
+			if hit, _ := an.PathTo(fn, nil, an.IsInstr(g), an.NewGates().AddEdges(isIn...)); hit != nil || len(isIn) == 0 {
+				bad = true
+			}
+			for _, l := range allLoops(fn) {
+				// the call sits in the loop or on its way out of it (it is followed by a break)
+				if l.body[g.Block()] || (len(l.header.Succs) > 0 && reaches(l.header.Succs[0], g.Block()) && !reaches(l.header.Succs[1], l.header.Succs[0])) {
+					if all, _ := loopCoversAll(l); !all {
+						bad = true
+					}
+				}
+			}
+		}
 		c.Check(!bad, rule, "newParamObject reads the ignore-unexported tag before looking at any field", "scan for the dig.In embed first, then the fields", "fields are examined before (or interleaved with) reading the ignore-unexported tag: an unexported field declared before the dig.In embed is rejected although the tag allows it", nil, nil)
 	}
 }
@@ -226,6 +243,11 @@ func ruleDryAllResults(rule string) RuleFn {
 				stored = true
 			}
 		})
+		for _, l := range allLoops(fn) {
+			if all, _ := loopCoversAll(l); !all {
+				good = false
+			}
+		}
 		c.Check(good && stored, rule, "dryInvoker produces a zero value for every result", "results[i] = reflect.Zero(ft.Out(i)) for all i", "some result of the fake call can stay an invalid reflect.Value (conditional or mis-indexed fill)", nil, nil)
 	}
 }
